@@ -509,3 +509,14 @@ def k11_lexical(ctx):
 
 
 RULES.append(('K11', k11_lexical))
+
+
+def k12_matcher(ctx):
+    """K12 the pattern scan of rule_tokinizer / find_match, tabulated (scv/matcher.py): which tokens a rule function is handed
+    for each named field and what the matched run is replaced by, on every line of up to three (thorough: four) tokens"""
+    from ..matcher import matcher_table
+    ctx.rule('K12', 'pattern scan: matches, field bindings and replacement (tabulated)', floor=1)
+    matcher_table(ctx, 'K12', deep=(ctx.tier == 'thorough' and ctx.cfg_name == 'dev'))
+
+
+RULES.append(('K12', k12_matcher))
